@@ -414,4 +414,249 @@ theorem convertUnits_refines (w : World) (self : Nat) (h : self < w.length) (to 
       · simp only [hl, ne_eq, not_false_eq_true, if_true]; exact ⟨hpre, trivial⟩
     | each tgt => exact runLoop_spec w self h conv tgt
 
+/-! ## the property, clause by clause -/
+
+namespace Spec
+/-- `t'` is `t` converted: same name, destinations, row index and number of columns; column by column
+    `Converted` (values = the converter's output for the original values, position by position, unit =
+    requested / reported base unit; or the very same column when it is not targeted) -/
+def Result (conv : Conv) (tgt : Nat → Col → Option Str) (t t' : Tbl) : Prop :=
+  t'.name = t.name ∧ t'.dests = t.dests ∧ t'.index = t.index ∧ t'.cols.length = t.cols.length ∧
+  ∀ j c, t.cols[j]? = some c → ∃ c', t'.cols[j]? = some c' ∧
+    Converted conv (callsBefore tgt 0 t.cols j) t.index.length c (tgt j c) c'
+end Spec
+
+theorem converted_name {conv : Conv} {k nrows : Nat} {c c' : Col} {tgt : Option Str}
+    (h : Converted conv k nrows c tgt c') : c'.name = c.name := by
+  unfold Converted at h
+  split at h
+  · rw [h]
+  · obtain ⟨u, vs, rep, -, -, -, -, -, rfl⟩ := h; rfl
+
+/-- **values and label together.**  Whenever `convert_units` returns, it returns the reference of a
+    fresh frame, and that frame is `Result`: every targeted convertible column holds exactly the
+    converter's output for the column's original values (as a list: position by position, the row index
+    plays no part and is kept), labelled with the requested unit — for `__base__` with the unit the
+    converter reported —, the converter having been called once per such column, in column order. -/
+theorem convert_values_and_label (w : World) (self : Nat) (h : self < w.length) (to : To)
+    (converter dflt : Option Conv) (w' : World) (r : Nat)
+    (hres : convertUnits w self h to converter dflt = (w', .ok r)) :
+    ∃ conv tgt t', choose converter dflt = some conv ∧
+      Spec.target to w[self].cols.length = .ok tgt ∧
+      r = w.length ∧ w'[r]? = some t' ∧ Spec.Result conv tgt w[self] t' := by
+  have href := convertUnits_refines w self h to converter dflt
+  simp only [hres] at href
+  obtain ⟨-, h2⟩ := href
+  cases hch : choose converter dflt with
+  | none => simp [hch] at h2
+  | some conv =>
+    simp only [hch] at h2
+    cases htg : Spec.target to w[self].cols.length with
+    | error e => simp [htg] at h2
+    | ok tgt =>
+      simp only [htg] at h2
+      cases hcc : convCols conv tgt w[self].index.length 0 0 w[self].cols with
+      | error e => simp [hcc] at h2
+      | ok q =>
+        obtain ⟨cs', k'⟩ := q
+        simp only [hcc, Except.ok.injEq] at h2
+        obtain ⟨hr, hw'⟩ := h2
+        obtain ⟨hlen, hpt⟩ := convCols_pointwise conv tgt w[self].index.length w[self].cols 0 0 cs' k' hcc
+        refine ⟨conv, tgt, { w[self] with cols := cs' }, rfl, rfl, hr, by rw [hr]; exact hw', rfl, rfl, rfl, hlen, ?_⟩
+        intro j c hc
+        obtain ⟨c', h1, h2⟩ := hpt j c hc
+        exact ⟨c', h1, by simpa using h2⟩
+
+/-- **untargeted columns, row order, index, name and destinations are unchanged**, and so are the
+    column names and their order -/
+theorem untargeted_unchanged (conv : Conv) (tgt : Nat → Col → Option Str) (t t' : Tbl)
+    (hR : Spec.Result conv tgt t t') :
+    t'.name = t.name ∧ t'.dests = t.dests ∧ t'.index = t.index ∧
+    t'.cols.map (·.name) = t.cols.map (·.name) ∧
+    ∀ j c, t.cols[j]? = some c → targeted c (tgt j c) = false → t'.cols[j]? = some c := by
+  obtain ⟨h1, h2, h3, h4, h5⟩ := hR
+  refine ⟨h1, h2, h3, ?_, ?_⟩
+  · apply List.ext_getElem?
+    intro i
+    simp only [List.getElem?_map]
+    cases hc : t.cols[i]? with
+    | none =>
+      have : t.cols.length ≤ i := List.getElem?_eq_none_iff.mp hc
+      rw [List.getElem?_eq_none_iff.mpr (by omega)]
+    | some c =>
+      obtain ⟨c', hc', hC⟩ := h5 i c hc
+      simp [hc', converted_name hC]
+  · intro j c hc ht
+    obtain ⟨c', hc', hC⟩ := h5 j c hc
+    simp only [Converted, ht, if_true] at hC
+    rw [hc', hC]
+
+/-- **the original table is not modified** — nor any other frame that existed before the call,
+    whether the call returns a table or raises -/
+theorem original_unchanged (w : World) (self : Nat) (h : self < w.length) (to : To)
+    (converter dflt : Option Conv) :
+    ∀ i, i < w.length → (convertUnits w self h to converter dflt).1[i]? = w[i]? :=
+  (convertUnits_refines w self h to converter dflt).1
+
+theorem target_base (n : Nat) : Spec.target (.str "base".toList) n =
+    .ok (fun _ c => if special c.unit then none else some base) := by
+  simp only [Spec.target]
+  rw [if_neg (by decide)]
+  exact if_pos trivial
+
+theorem target_origin (n : Nat) : Spec.target (.str "origin".toList) n =
+    .ok (fun _ c => if special c.unit then none else some origin) := by
+  simp only [Spec.target]
+  exact if_pos trivial
+
+/-- **text / onoff / datetime columns are skipped by 'base'**: not targeted (so: no converter call,
+    no refusal), and returned as they are -/
+theorem special_skipped_by_base (w : World) (self : Nat) (h : self < w.length)
+    (converter dflt : Option Conv) (w' : World) (r : Nat)
+    (hres : convertUnits w self h (.str "base".toList) converter dflt = (w', .ok r))
+    (j : Nat) (c : Col) (hc : w[self].cols[j]? = some c) (hs : special c.unit = true) :
+    ∃ t', w'[r]? = some t' ∧ t'.cols[j]? = some c := by
+  obtain ⟨conv, tgt, t', -, htg, -, hw', hR⟩ :=
+    convert_values_and_label w self h _ converter dflt w' r hres
+  rw [target_base] at htg
+  cases htg
+  exact ⟨t', hw', (untargeted_unchanged conv _ _ t' hR).2.2.2.2 j c hc (by simp [targeted, hs])⟩
+
+/-- if the conversion of any one column fails at its place in the call sequence, `convert_units`
+    raises: no table is returned (and, by `original_unchanged`, nothing the caller holds was written) -/
+theorem column_failure_fails_call (w : World) (self : Nat) (h : self < w.length) (to : To)
+    (converter dflt : Option Conv) (conv : Conv) (tgt : Nat → Col → Option Str)
+    (hch : choose converter dflt = some conv) (htg : Spec.target to w[self].cols.length = .ok tgt)
+    (j : Nat) (c : Col) (hc : w[self].cols[j]? = some c)
+    (hfail : ∃ e, convertCol conv (callsBefore tgt 0 w[self].cols j) w[self].index.length c (tgt j c)
+      = .error e) :
+    ∃ e, (convertUnits w self h to converter dflt).2 = .error e := by
+  have href := (convertUnits_refines w self h to converter dflt).2
+  simp only [hch, htg] at href
+  obtain ⟨e, he⟩ := convCols_error_of_col conv tgt w[self].index.length w[self].cols 0 0 j c hc
+    (by simpa using hfail)
+  simp only [he] at href
+  exact ⟨e, href⟩
+
+/-- **text / onoff / datetime columns are refused when a different unit is requested**: whatever the
+    dispatcher form, the converter and the other columns, the call raises (at the column itself the
+    exception is UnitConversionNotDefinedError, raised before the converter is consulted:
+    `convertCol_special`) -/
+theorem special_refused (w : World) (self : Nat) (h : self < w.length) (to : To)
+    (converter dflt : Option Conv) (conv : Conv) (tgt : Nat → Col → Option Str)
+    (hch : choose converter dflt = some conv) (htg : Spec.target to w[self].cols.length = .ok tgt)
+    (j : Nat) (c : Col) (u : Str) (hc : w[self].cols[j]? = some c) (hs : special c.unit = true)
+    (hu : tgt j c = some u) (hne : u ≠ c.unit) :
+    ∃ e, (convertUnits w self h to converter dflt).2 = .error e :=
+  column_failure_fails_call w self h to converter dflt conv tgt hch htg j c hc
+    ⟨_, by rw [hu]; exact convertCol_special conv _ _ c u hs hne⟩
+
+/-- … and nothing happens when the unit it already has is requested -/
+theorem special_same_unit_ok (conv : Conv) (k nrows : Nat) (c : Col) :
+    convertCol conv k nrows c (some c.unit) = .ok (c, k) := by
+  simp [convertCol]
+
+/-- **when a conversion fails the caller gets the error rather than a partly relabelled table**: if the
+    converter raises for a targeted column (at that column's call), `convert_units` raises, and every
+    frame that existed before the call is as it was -/
+theorem failure_is_atomic (w : World) (self : Nat) (h : self < w.length) (to : To)
+    (converter dflt : Option Conv) (conv : Conv) (tgt : Nat → Col → Option Str)
+    (hch : choose converter dflt = some conv) (htg : Spec.target to w[self].cols.length = .ok tgt)
+    (j : Nat) (c : Col) (u e : Str) (hc : w[self].cols[j]? = some c)
+    (hu : tgt j c = some u) (hne : u ≠ c.unit)
+    (hfail : conv (callsBefore tgt 0 w[self].cols j) c.vals c.unit (convArg u) = .error e) :
+    (∃ e', (convertUnits w self h to converter dflt).2 = .error e') ∧
+    ∀ i, i < w.length → (convertUnits w self h to converter dflt).1[i]? = w[i]? := by
+  refine ⟨?_, original_unchanged w self h to converter dflt⟩
+  apply column_failure_fails_call w self h to converter dflt conv tgt hch htg j c hc
+  rw [hu]
+  cases hs : special c.unit with
+  | true => exact ⟨_, convertCol_special conv _ _ c u hs hne⟩
+  | false =>
+    by_cases ho : u = origin
+    · subst ho
+      refine ⟨.notImplemented, ?_⟩
+      unfold convertCol
+      simp only [hne, if_false, isSpecial_eq, hs, Bool.false_eq_true, originTok_lit, if_true]
+    · exact ⟨_, convertCol_conv_error conv _ _ c u e hne hs ho hfail⟩
+
+/-- the error the caller gets is the failing column's own error when no earlier column fails:
+    one-column tables make this exact -/
+theorem single_column_error (conv : Conv) (tgt : Nat → Col → Option Str) (nrows : Nat) (c : Col) (e : Err)
+    (h : convertCol conv 0 nrows c (tgt 0 c) = .error e) :
+    convCols conv tgt nrows 0 0 [c] = .error e := by
+  simp [convCols, h]
+
+/-! ## the dispatcher forms -/
+
+/-- no converter and no default converter: MissingUnitConverterError, nothing allocated -/
+theorem missing_converter (w : World) (self : Nat) (h : self < w.length) (to : To) :
+    convertUnits w self h to none none = (w, .error .missingConverter) := rfl
+
+/-- a positional list of the wrong length is a ValueError before any conversion -/
+theorem positional_length_checked (w : World) (self : Nat) (h : self < w.length)
+    (xs : List (Option Str)) (conv : Conv) (dflt : Option Conv)
+    (hl : xs.length ≠ w[self].cols.length) :
+    (convertUnits w self h (.seq xs) (some conv) dflt).2 = .error .valueError := by
+  simp [convertUnits, choose, dispatch, form, hl]
+
+/-- a `str` other than "origin"/"base" is a Sequence: it is read as the list of its characters -/
+theorem str_is_sequence (w : World) (self : Nat) (h : self < w.length) (s : Str)
+    (converter dflt : Option Conv) (h1 : s ≠ "origin".toList) (h2 : s ≠ "base".toList) :
+    convertUnits w self h (.str s) converter dflt =
+      convertUnits w self h (.seq (s.map (fun ch => some [ch]))) converter dflt := by
+  simp only [convertUnits, dispatch, form]
+  rw [if_neg h1, if_neg h2]
+
+/-- anything that is not a str, Sequence, dict or callable: TypeError -/
+theorem other_is_type_error (w : World) (self : Nat) (h : self < w.length) (conv : Conv)
+    (dflt : Option Conv) : (convertUnits w self h .other (some conv) dflt).2 = .error .typeError := by
+  simp [convertUnits, choose, dispatch, form]
+
+/-- 'origin' is not implemented: with a convertible column whose unit is not literally `__origin__`
+    the call raises (the first such column raises NotImplementedError: `convertCol` tests it before
+    the converter) -/
+theorem origin_not_implemented (w : World) (self : Nat) (h : self < w.length)
+    (converter dflt : Option Conv) (conv : Conv) (hch : choose converter dflt = some conv)
+    (j : Nat) (c : Col) (hc : w[self].cols[j]? = some c) (hs : special c.unit = false)
+    (hu : c.unit ≠ origin) :
+    ∃ e, (convertUnits w self h (.str "origin".toList) converter dflt).2 = .error e := by
+  apply column_failure_fails_call w self h _ converter dflt conv _ hch (target_origin _) j c hc
+  refine ⟨.notImplemented, ?_⟩
+  unfold convertCol
+  simp only [hs, Bool.false_eq_true, if_false, isSpecial_eq, originTok_lit, if_true]
+  rw [if_neg (fun e => hu e.symm)]
+
+/-! ## non-vacuity: a concrete table, converter and calls -/
+
+/-- rows labelled 2, 0, 1 (a permuted index); an int column in mm, a float column in C with a NaN,
+    a text column -/
+def exT : Tbl :=
+  { name := "t".toList, dests := ["all".toList], index := ["2".toList, "0".toList, "1".toList],
+    cols := [⟨"a".toList, "mm".toList, ["1".toList, "2".toList, "3".toList]⟩,
+             ⟨"b".toList, "C".toList, ["1.5".toList, "nan".toList, "3.0".toList]⟩,
+             ⟨"c".toList, "text".toList, ["x".toList, "y".toList, "z".toList]⟩] }
+
+/-- a converter that tags every value, reports "m" as base of "mm", and fails on its second call -/
+def exConv (failSecond : Bool) : Conv := fun k vs _ to =>
+  if failSecond && k == 1 then .error "KeyError".toList
+  else .ok (vs.map (fun v => v ++ "*".toList), match to with | some u => u | none => "m".toList)
+
+example : convertUnits [exT] 0 (by decide) (.dict [("a".toList, some "m".toList), ("zz".toList, some "q".toList)])
+    (some (exConv false)) none =
+    ([exT, { exT with cols := [⟨"a".toList, "m".toList, ["1*".toList, "2*".toList, "3*".toList]⟩,
+                               ⟨"b".toList, "C".toList, ["1.5".toList, "nan".toList, "3.0".toList]⟩,
+                               ⟨"c".toList, "text".toList, ["x".toList, "y".toList, "z".toList]⟩] }], .ok 1) := by
+  rfl
+
+example : (convertUnits [exT] 0 (by decide) (.str "base".toList) (some (exConv true)) none).2
+    = .error (.conv "KeyError".toList) := by rfl
+
+example : (convertUnits [exT] 0 (by decide) (.seq [none, none, some "m".toList]) (some (exConv false)) none).2
+    = .error .unitConversionNotDefined := by rfl
+
+example : choose (some (exConv true)) none = some (exConv true) ∧
+    (∃ tgt, Spec.target (.str "base".toList) exT.cols.length = .ok tgt ∧ tgt 1 ⟨"b".toList, "C".toList, []⟩ = some base) :=
+  ⟨rfl, _, target_base _, by decide⟩
+
 end Pdt.C06
